@@ -117,6 +117,15 @@ func (m *Model) Check(e, res string) []common.Violation {
 	if m.on("C14") && m.spare != nil {
 		out = append(out, m.checkC14(post)...)
 	}
+	if m.on("C09") && m.spare != nil && strings.HasPrefix(m.synced, "ok=") {
+		// a node that was marked as loaded after a sync is a node like any other: the structural invariant holds on it
+		if sv := mkView(m.spare.Book.VerifSnapshot()); sv.S.DagLoaded {
+			for _, v := range m.checkC09(len(m.nodes), nil, sv, e, res) {
+				v.Key += "/joined-node"
+				out = append(out, v)
+			}
+		}
+	}
 	return out
 }
 
